@@ -142,5 +142,103 @@ Proof. exact missing_entry_detected. Qed.
 Print Assumptions C03_missing_entry_detected.
 
 (* the exit codes named by the property: obligations on the constants regenerated from errors.py *)
+(* DETECTION END TO END on a flat tree (one history at the root, any number n >= 1 of generations, no renames): the
+   history `old` was consistent with the tree `kids` (flat_ok -- e.g. any state reached by C03_unchanged_tree_all_exit_0
+   or C03_flat_cycle) and the tree is now `kids'`.  Section hypotheses of Proofs/FlatFacts.v (Changed) appear here as
+   premises.  "or a collision": the premise digest f c' <> digest f c is exactly the statement that the old and the
+   new bytes are not a collision of the primitive in the format that is compared. *)
+Theorem C03_flat_altered_file_verify_11 : forall Hb matches C cdig n old kids kids',
+  flat_ok Hb C cdig n old kids -> wf_tree C (Dir (Some old) kids') ->
+  load C cdig (Dir (Some old) kids') = inl [lhist_of C [] None (Some old)] -> n <> 0 ->
+  forall ipats ifile p c c' e,
+  get C (Dir (Some old) kids) p = Some (File c) -> find_original (loaded_gens C old) p = Some e ->
+  In (p, c') (ev_files (events matches C (set_patterns (latest_patterns (loaded_gens C old)) ipats (pattern_file_lines ifile)) [] (Dir (Some old) kids'))) ->
+  digest_text Hb (e_fmt e) c' <> digest_text Hb (e_fmt e) c ->
+  exists r, verify_result Hb matches C cdig false (Dir (Some old) kids') ipats ifile = Some r /\ vr_code r = 11%Z /\ In p (vr_mismatch r).
+Proof. intros; eapply flat_altered_detected; eauto. Qed.
+Print Assumptions C03_flat_altered_file_verify_11.
+
+Theorem C03_flat_altered_file_create_11 : forall Hb matches C cdig n old kids kids',
+  flat_ok Hb C cdig n old kids -> wf_tree C (Dir (Some old) kids') ->
+  load C cdig (Dir (Some old) kids') = inl [lhist_of C [] None (Some old)] ->
+  forall ser req no_dh ip ifl p c c' f e0,
+  get C (Dir (Some old) kids) p = Some (File c) -> find_original (loaded_gens C old) p <> None ->
+  In f req -> find_first (loaded_gens C old) p f = Some e0 ->
+  In (p, c') (ev_files (events matches C (set_patterns (latest_patterns (loaded_gens C old)) ip (pattern_file_lines ifl)) [] (Dir (Some old) kids'))) ->
+  digest_text Hb f c' <> digest_text Hb f c ->
+  o_outcome (snd (create_folder Hb matches C cdig ser (Dir (Some old) kids') req no_dh false ip ifl)) = Exit 11.
+Proof. intros; eapply flat_altered_create_11; eauto. Qed.
+Print Assumptions C03_flat_altered_file_create_11.
+
+Theorem C03_flat_new_file_verify_21 : forall Hb matches C cdig n old kids kids',
+  flat_ok Hb C cdig n old kids -> load C cdig (Dir (Some old) kids') = inl [lhist_of C [] None (Some old)] -> n <> 0 ->
+  forall ipats ifile p c',
+  find_original (loaded_gens C old) p = None ->
+  In (p, c') (ev_files (events matches C (set_patterns (latest_patterns (loaded_gens C old)) ipats (pattern_file_lines ifile)) [] (Dir (Some old) kids'))) ->
+  exists r, verify_result Hb matches C cdig false (Dir (Some old) kids') ipats ifile = Some r /\
+    In p (vr_new r) /\ (vr_code r = 11%Z \/ vr_code r = 21%Z) /\ (vr_mismatch r = [] -> vr_code r = 21%Z).
+Proof. intros; eapply flat_new_detected; eauto. Qed.
+Print Assumptions C03_flat_new_file_verify_21.
+
+Theorem C03_flat_new_file_diff_21 : forall Hb matches C cdig n old kids kids',
+  flat_ok Hb C cdig n old kids -> load C cdig (Dir (Some old) kids') = inl [lhist_of C [] None (Some old)] -> n <> 0 ->
+  forall ipats ifile p c',
+  find_original (loaded_gens C old) p = None ->
+  In (p, c') (ev_files (events matches C (set_patterns (latest_patterns (loaded_gens C old)) ipats (pattern_file_lines ifile)) [] (Dir (Some old) kids'))) ->
+  exists r, verify_result Hb matches C cdig true (Dir (Some old) kids') ipats ifile = Some r /\
+    In p (vr_new r) /\ (vr_code r = 10%Z \/ vr_code r = 21%Z) /\ (vr_missing r = [] -> vr_code r = 21%Z).
+Proof. intros; eapply flat_new_detected_diff; eauto. Qed.
+Print Assumptions C03_flat_new_file_diff_21.
+
+Theorem C03_flat_removed_entry_verify_nonzero : forall Hb matches C cdig n old kids kids',
+  flat_ok Hb C cdig n old kids -> wf_tree C (Dir (Some old) kids') ->
+  load C cdig (Dir (Some old) kids') = inl [lhist_of C [] None (Some old)] -> n <> 0 ->
+  forall ipats ifile g r0,
+  In g (loaded_gens C old) -> In r0 (g_records g) -> get C (Dir (Some old) kids') (r_path r0) = None ->
+  ignored matches (set_patterns (latest_patterns (loaded_gens C old)) ipats (pattern_file_lines ifile)) (r_path r0) = false ->
+  exists r, verify_result Hb matches C cdig false (Dir (Some old) kids') ipats ifile = Some r /\
+    In (r_path r0) (vr_missing r) /\ vr_code r <> 0%Z /\ (vr_mismatch r = [] -> vr_new r = [] -> vr_code r = 10%Z).
+Proof. intros; eapply flat_removed_detected; eauto. Qed.
+Print Assumptions C03_flat_removed_entry_verify_nonzero.
+
+Theorem C03_flat_removed_entry_diff_10 : forall Hb matches C cdig n old kids kids',
+  flat_ok Hb C cdig n old kids -> wf_tree C (Dir (Some old) kids') ->
+  load C cdig (Dir (Some old) kids') = inl [lhist_of C [] None (Some old)] -> n <> 0 ->
+  forall ipats ifile g r0,
+  In g (loaded_gens C old) -> In r0 (g_records g) -> get C (Dir (Some old) kids') (r_path r0) = None ->
+  ignored matches (set_patterns (latest_patterns (loaded_gens C old)) ipats (pattern_file_lines ifile)) (r_path r0) = false ->
+  exists r, verify_result Hb matches C cdig true (Dir (Some old) kids') ipats ifile = Some r /\ In (r_path r0) (vr_missing r) /\ vr_code r = 10%Z.
+Proof. intros; eapply flat_removed_detected_diff; eauto. Qed.
+Print Assumptions C03_flat_removed_entry_diff_10.
+
+Theorem C03_flat_removed_entry_create_10 : forall Hb matches C cdig n old kids kids',
+  flat_ok Hb C cdig n old kids -> wf_tree C (Dir (Some old) kids') ->
+  load C cdig (Dir (Some old) kids') = inl [lhist_of C [] None (Some old)] ->
+  forall ser req no_dh ip ifl g r0,
+  In g (loaded_gens C old) -> In r0 (g_records g) -> get C (Dir (Some old) kids') (r_path r0) = None ->
+  ignored matches (set_patterns (latest_patterns (loaded_gens C old)) ip (pattern_file_lines ifl)) (r_path r0) = false ->
+  let o := snd (create_folder Hb matches C cdig ser (Dir (Some old) kids') req no_dh false ip ifl) in
+  o_outcome o = Exit 11 \/ (o_outcome o = Exit 10 /\ In (r_path r0) (o_missing o)).
+Proof. intros; eapply flat_removed_create; eauto. Qed.
+Print Assumptions C03_flat_removed_entry_create_10.
+
+(* a create run over a flat tree never aborts, whatever the history holds and whatever changed in the tree: each event
+   of a well-formed tree has its own path, so each record holds one file's seal decision, which always passes
+   _validate_new_hash_list (a `new` entry comes with a `verified` one and never with a `failed` one) *)
+Theorem C03_flat_create_never_aborts : forall Hb matches C cdig ser h0, lh_root h0 = [] -> lh_parent h0 = None ->
+  forall t req no_dh ip ifl, wf_tree C t -> is_dir C t = true -> load C cdig t = inl [h0] ->
+  o_outcome (snd (create_folder Hb matches C cdig ser t req no_dh false ip ifl)) <> Abort.
+Proof. exact create_flat_never_aborts. Qed.
+Print Assumptions C03_flat_create_never_aborts.
+
+(* create exits 11 exactly when some visited file has a failed format (general: any nesting), unless it aborts *)
+Theorem C03_create_exit_11_iff : forall Hb matches C cdig ser t req no_dh ip ifl hs, load C cdig t = inl hs ->
+  let spec := set_patterns (latest_patterns (lh_gens (root_hist hs))) ip (pattern_file_lines ifl) in
+  let o := snd (create_folder Hb matches C cdig ser t req no_dh false ip ifl) in
+  o_outcome o = Abort \/
+  (o_outcome o = Exit 11 <-> exists x, In x (ev_files (events matches C spec [] t)) /\ file_failures Hb hs (sort_fmts req) x <> 0).
+Proof. exact create_exit_11_iff. Qed.
+Print Assumptions C03_create_exit_11_iff.
+
 Theorem C03_codes : exit_completeness = 10%Z /\ exit_verification_failed = 11%Z /\ exit_new_files_found = 21%Z /\ exit_single_file_not_found = 20%Z.
 Proof. repeat split; reflexivity. Qed.
